@@ -4,6 +4,7 @@ import (
 	"crypto/ecdsa"
 	"encoding/hex"
 	"fmt"
+	"math/big"
 	"math/rand"
 	"time"
 
@@ -56,7 +57,7 @@ func runScenarioImplOnly(c *core.Ctx, class, desc string, sc *Scenario, gt func(
 }
 
 func C11(c *core.Ctx) {
-	c.Rule = "honest worlds from the generator (fresh PKI and keys, random field contents, SVN vectors, TDX module versions 0..255, matching UpToDate level, CRLs listing unrelated serials) at the three option levels; QE auth data lengths 0..65535, trailing NUL, extra bytes; signatures with leading zero bytes in r / s; pairwise distinct verification times anywhere inside all validity windows; worlds whose documents, CRLs and PCK leaf end at staggered dates with each time-set entry one day before the end of its own artefact; the Intel sample quote under the embedded root at its reference time; every case repeated on an Options value that was first used for an honest collateral+revocation call about another platform (the verdict must not change). non-trivial = every case (each is a full verification); distinct = distinct worlds x level"
+	c.Rule = "honest worlds from the generator (fresh PKI and keys, random field contents, SVN vectors, TDX module versions 0..255, matching UpToDate level, CRLs listing unrelated serials, some with their issuer name encoded as UTF8String) at the three option levels; QE auth data lengths 0..65535, trailing NUL, extra bytes; signatures with leading zero bytes in r / s; pairwise distinct verification times anywhere inside all validity windows; worlds whose documents, CRLs and PCK leaf end at staggered dates with each time-set entry one day before the end of its own artefact; the Intel sample quote under the embedded root at its reference time; every case repeated on an Options value that was first used for an honest collateral+revocation call about another platform (the verdict must not change). non-trivial = every case (each is a full verification); distinct = distinct worlds x level"
 	r := c.Rng
 	levels := []struct {
 		name     string
@@ -91,6 +92,17 @@ func C11(c *core.Ctx) {
 			// signatures whose r or s has leading zero bytes (DER integers must be minimal)
 			c11LeadingZeroSigs(r, w)
 			desc += " leading-zero signatures"
+		}
+		if i%7 == 3 {
+			// CRLs whose issuer name is written with UTF8String values (another encoding of the same name)
+			day := 24 * time.Hour
+			if b, err := world.MakeCRLUTF8(r, pki.Inter, []*big.Int{big.NewInt(int64(1000 + i))}, baseTime.Add(-2*day), baseTime.Add(60*day), 5); err == nil {
+				w.PckCrl = b
+			}
+			if b, err := world.MakeCRLUTF8(r, pki.Root, []*big.Int{big.NewInt(int64(2000 + i))}, baseTime.Add(-2*day), baseTime.Add(60*day), 5); err == nil {
+				w.RootCrl = b
+			}
+			desc += " CRL issuer names as UTF8String"
 		}
 		// a verification time anywhere inside every validity window
 		tm := baseTime.Add(time.Duration(r.Int63n(int64(29*24*time.Hour))) - 12*time.Hour)
